@@ -1,6 +1,7 @@
 """Per-property claim texts for MANIFEST.json (see tools/gen_manifest.py)."""
 
-NOT_APPLICABLE = {'C01': 'limit statement over arbitrarily long random chains (ensemble averages, Poisson law, uniformity): no sound static argument in reach bounds a stationary distribution; its code-shaped preconditions are decided under C02 (acceptance formulas), C03 (restore on reject), C06 (single generator), C10 (proposal symmetry, rotation unit)'}
+NOT_APPLICABLE = {'C01': 'limit statement over arbitrarily long random chains (ensemble averages, Poisson law, uniformity): no sound static argument in reach bounds a stationary distribution; its code-shaped '
+        'preconditions are decided under C02 (acceptance formulas), C03 (restore on reject), C06 (single generator), C10 (proposal symmetry, rotation unit)'}
 
 CLAIMS = {'C06': {'text': "Every random draw in src/quansino is shown (who-may-call + provenance) to come from the one generator built in Driver.__init__ from the user's seed, and a finite case analysis "
                  '(seed None / 0 / k>0) shows the given seed reaches the bit generator unchanged; global/fresh generators, clock, pid and set-order dependence are excluded package-wide. Universal '
@@ -29,7 +30,8 @@ CLAIMS = {'C06': {'text': "Every random draw in src/quansino is shown (who-may-c
                  "json.dump(s) with ASE's encoder and no key sorting by default) — the move table is rebuilt in file order and scheduled by position. T7: per-move state that from_dict re-derives "
                  "(unique_labels) is produced at run time only by the function from_dict uses. T4 also requires that the value written under a context slot's key reads that slot and nothing else. "
                  "T8: on the abstract heap, after every trial the calculator's cached results belong to the current configuration (a restarted run starts from an empty cache). T4 also requires that "
-                 'the setattr replay loops of every from_dict are not guarded by the truth value of the stored value.',
+                 'the setattr replay loops of every from_dict are not guarded by the truth value of the stored value. T9: every component that can appear in a restart file writes its state '
+                 "unconditionally (or under a guard that loses nothing because the reader's default is the guarded value).",
          'note': 'Not decided: step-for-step equality of the resumed trajectory (behavioural), JSON number round trip (ASE encoder, trusted; its use of obj.todict() is validated against the '
                  'installed ASE source on every run). ForceBias/AdaptiveForceBias restart is a listed known finding. Assertions in the analysed code are taken to hold (they are dropped from the '
                  'normal form).',
@@ -39,7 +41,8 @@ CLAIMS = {'C06': {'text': "Every random draw in src/quansino is shown (who-may-c
                  're-evaluating its guard at every exit of every path that ran it (catches zero-length runs); every run/srun/run entry point of every driver class resolved through the MRO exhausts '
                  'the step generators. irun delegating to a private generator is spliced; a plain-function irun that validates / fixes the step bound when called and returns the generator (eager '
                  'set-up) is reported under O2. O3: the header is written in the one-shot start-up block and nowhere else, before the step-0 observer call (order from the pre-order of the normal '
-                 'form).',
+                 'form). O3 also covers other writers: an assignment to a flag of the start-up guard outside irun / constructor / from_dict is evaluated over all flag × step-count states a finished '
+                 'call can leave, and may not make the guard true again.',
          'note': 'Not decided: byte identity of output files across split runs (follows from O1–O3 together with C06 and C16). Guard equivalence is exhaustive only within interval∈[-7,7], '
                  'step∈[0,20]; the predicate is piecewise in sign(interval) and step mod |interval|, which this domain covers for those intervals. Assertions in the analysed code are taken to hold '
                  '(they are dropped from the normal form).',
@@ -66,7 +69,8 @@ CLAIMS = {'C06': {'text': "Every random draw in src/quansino is shown (who-may-c
                  'specialised composite iff all leaves of one displacement/exchange kind); invalid multipliers must raise; CompositeMove.__call__ must not short-circuit. A4 is decided by running '
                  'CompositeMove.__call__ in the checker-owned interpreter on stand-in children for every result vector up to three children (calls in order, once each, with the context; result = '
                  'any). A1 also demands that every operand (leaf or intermediate result) still holds the elements it held when it was used (in-place list += is modelled). The empty composite is one '
-                 'of the operand kinds (operations family).',
+                 "of the operand kinds (operations family). The specialised composite of an element class is taken from the constructor's composite_move_type declaration as well as from the "
+                 'subscripted base class.',
          'note': 'Trusted: typing caches parameterised generic aliases (same parameters, same object) — either way both branches then build the plain composite. The reflected spelling n*x is only '
                  'checked for classes that define __rmul__ (the property speaks of a*n). Exhaustive within the stated tree bound only. Assertions in the analysed code are taken to hold (they are '
                  'dropped from the normal form).',
@@ -112,7 +116,8 @@ CLAIMS = {'C06': {'text': "Every random draw in src/quansino is shown (who-may-c
                  'energy E_old read by every formula is, at the start of the first trial and after every accepted / rejected / failed trial, the energy of the configuration the next trial starts '
                  'from (a NaN or stale baseline is reported with the path). Public and static helpers of the criteria are seen through unless they keep state on the criterion. Rule W: evaluate() '
                  'never writes to the context and never changes in place an array that may share storage with a context attribute (views through np.asarray / slices / .T are followed). Determinants '
-                 'of the cell matrices are treated as signed volumes (a left-handed cell is legal).',
+                 'of the cell matrices are treated as signed volumes (a left-handed cell is legal). Rule T: the default-criteria tables are resolved per driver × shipped move (through ** spreads and '
+                 "the move's MRO); a trial that draws momenta and integrates is judged by default by a criterion whose exponent has the kinetic-energy term, and no other trial is.",
          'note': 'Decides identity over the reals, not floating-point rounding near A = 1. The strain tensor is opaque except that it must vanish for an undeformed cell. For the grand-canonical '
                  'clamp (exponent ≤ 700 before a finite prefactor multiplies it) decision-neutrality assumes the prefactor is a normal double (≥ 1e-300). Unrecognised source expressions end as '
                  'analysis-error, not as a verdict. Assertions in the analysed code are taken to hold (they are dropped from the normal form).',
@@ -133,7 +138,8 @@ CLAIMS = {'C06': {'text': "Every random draw in src/quansino is shown (who-may-c
                  'value-numbered to min+(max−min)·u (so delta ∈ [min,max] with the stated anchor values); fallbacks return reference_variance only for missing committee data; step() adapts delta '
                  'before the inherited step on every path. Update functions are read through caches (derived-attribute resolver) and module constants; a slope cached at construction from '
                  'reference_variance is reported as stale-able. R6: structural sign analysis shows that every scheme returns a non-negative variation coefficient (the update functions are maps of '
-                 '[0, ∞) only). R7: update functions and schemes never change an argument in place (directly or through np.asarray / a view).',
+                 '[0, ∞) only). R7: update functions and schemes never change an argument in place (directly or through np.asarray / a view). R8: no method of the force-bias drivers changes in place '
+                 'a local that may be the stored delta itself (bound to self.delta or to a zero-argument helper that can return it uncopied).',
          'note': 'Decided over the reals; floating-point saturation of tanh/exp is not claimed. Assertions in the analysed code are taken to hold (they are dropped from the normal form).',
          'technique': 'sympy normal forms, limits and a structural monotonicity domain + dominance on the CFG + derived-attribute (cache) resolution with freshness obligations'},
  'C14': {'text': "The shipped integrator's loop body is value-numbered with a stateful summary of the Atoms API (positions/momenta as expressions, forces as an uninterpreted function of the current "
@@ -151,7 +157,8 @@ CLAIMS = {'C06': {'text': "Every random draw in src/quansino is shown (who-may-c
                  "rotates a copy of the group about its centre of mass and returns the difference for the same index set, with angles in the unit of ASE's degree-valued euler_rotate (validated "
                  'against the installed ASE source) over a full period; deformation generators are symmetric by construction with symmetric uniform entries, traceless for Shape, scalar for '
                  'Isotropic, blended as G∘mask + 𝟙∘(¬mask); the composite is the axis-0 sum over one call per child. G6: every operation owns its parameters (no shared module-level default mask). G4 '
-                 'includes a finite case analysis of the mask handling: only `mask is None` selects the default mask.',
+                 'includes a finite case analysis of the mask handling: only `mask is None` selects the default mask. G3 accepts the centroid written as Σ rows / number of rows; dividing by the '
+                 'number of index entries is accepted only if every producer of context._moving_indices hands over integer indices, never a boolean mask (two-site rule; the producer is named).',
          'note': "Trusted lemmas: the (cosθ, φ) sampler is uniform on the sphere and symmetric under d→−d; expm of a symmetric matrix is SPD with inverse expm(−T); det expm(T) = exp(tr T); ASE's "
                  "euler_rotate about 'COM' keeps the centre of mass. Not decided: uniformity in distribution, volume preservation to rounding, symmetry under a non-default mask. Assertions in the "
                  'analysed code are taken to hold (they are dropped from the normal form).',
@@ -198,7 +205,10 @@ CLAIMS = {'C06': {'text': "Every random draw in src/quansino is shown (who-may-c
                  'path; the simulation dictionary reaches move.to_dict()/criteria.to_dict(). P1 tracks collections of user objects (generators of storage.move, Iterable[MoveType] parameters, '
                  "accumulating lists, the generic composite's children): value comparison / membership on them calls __eq__, which is outside the protocol. P1 also reports truth-value / length tests "
                  '(`if x`, `not x`, bool(x), len(x)) on objects given to add_move or held by the move table: they call __bool__/__len__, which a conforming object may define. P5: the scheduler rules '
-                 "M1–M3 of C09 (every due move is offered, forced slots are placed) are part of 'where it is executed'.",
+                 "M1–M3 of C09 (every due move is offered, forced slots are placed) are part of 'where it is executed'. P3 guard: the comparison that decides on_cell_changed must see the pre-trial "
+                 "saved cell: a slot read after the chain call that refreshes it is reported, an alias taken before is accepted only if the context's save_state chain rebinds the slot rather than "
+                 'refreshing it in place.',
          'note': "Decides the drivers' own code; behaviour inside user objects is out of scope. The pyright compile-fail witness pair sketched in DESIGN.md was not built (the structural rules decide "
                  'the clauses directly). Assertions in the analysed code are taken to hold (they are dropped from the normal form).',
          'technique': "who-may-access (R-OWNER) dataflow over user-object expressions + exhaustive evaluation of the step loop's routing skeleton over (moved, verdict)"}}
+
